@@ -1,5 +1,6 @@
-import JsightVerif.Proofs.Simple
+import JsightVerif.Proofs.Agnostic
 import JsightVerif.Model.ScanGen
+import JsightVerif.Props.Common
 /-
   C08 — layout does not change meaning (scanner level).
   A condition is *agnostic* to a pair of bytes when each of its byte tests gives the same answer
@@ -9,73 +10,8 @@ import JsightVerif.Model.ScanGen
   LF/CR and to blank/tab: the state x trivia product that fixtures cannot sample.
 -/
 namespace JsightVerif.Props.C08
-open JsightVerif.Model JsightVerif.Gen
+open JsightVerif.Model JsightVerif.Gen JsightVerif.Props
 
-/-- every byte test inside the condition answers the same on `a` and `b` -/
-def condAgn (a b : UInt8) : Cond → Bool
-  | .byteEq x => (a.toNat == x) == (b.toNat == x)
-  | .eqCaseWs => (a == caseWhitespace a) == (b == caseWhitespace b)
-  | .eqCaseNl => (a == caseNewLine a) == (b == caseNewLine b)
-  | .isWs => isSpaceB a == isSpaceB b
-  | .isNl => isNewLineB a == isNewLineB b
-  | .not c => condAgn a b c
-  | .and c d => condAgn a b c && condAgn a b d
-  | .or c d => condAgn a b c && condAgn a b d
-  | _ => true
-
-theorem evalCond_agn {σ} (env : Env) (s : Sc σ) (a b : UInt8) (cnd : Cond) (h : condAgn a b cnd = true) :
-    evalCond env s a cnd = evalCond env s b cnd := by
-  induction cnd with
-  | byteEq x => simp only [condAgn, beq_iff_eq] at h; simp [evalCond, h]
-  | eqCaseWs => simp only [condAgn, beq_iff_eq] at h; simp [evalCond, h]
-  | eqCaseNl => simp only [condAgn, beq_iff_eq] at h; simp [evalCond, h]
-  | isWs => simp only [condAgn, beq_iff_eq] at h; simp [evalCond, h]
-  | isNl => simp only [condAgn, beq_iff_eq] at h; simp [evalCond, h]
-  | dataBackEq _ _ => rfl
-  | isDirective => rfl
-  | hasTypeOrAnyOrEmpty => rfl
-  | hasAnyOrEmpty => rfl
-  | hasRegex => rfl
-  | not c ih => simp only [condAgn] at h; simp [evalCond, ih h]
-  | and c d ihc ihd =>
-    simp only [condAgn, Bool.and_eq_true] at h
-    simp [evalCond, ihc h.1, ihd h.2]
-  | or c d ihc ihd =>
-    simp only [condAgn, Bool.and_eq_true] at h
-    simp [evalCond, ihc h.1, ihd h.2]
-
-def progAgn {σ} (a b : UInt8) : Prog σ → Bool
-  | .setStep _ k | .push _ k | .pushCur k | .popToStep k | .found _ _ k | .curSub _ k | .readLen _ k => progAgn a b k
-  | .ite c t e => condAgn a b c && progAgn a b t && progAgn a b e
-  | _ => true
-
-/-- japiErrorUnexpectedChar does not look at the byte either (only at cursor vs size) -/
-theorem runProg_agnostic {σ} (env : Env) (a b : UInt8) (p : Prog σ) (s : Sc σ) (h : progAgn a b p = true) :
-    runProg env a p s = runProg env b p s := by
-  induction p generalizing s with
-  | setStep t k ih => simp only [progAgn] at h; simp [runProg, ih _ h]
-  | push t k ih => simp only [progAgn] at h; simp [runProg, ih _ h]
-  | pushCur k ih => simp only [progAgn] at h; simp [runProg, ih _ h]
-  | popToStep k ih => simp only [progAgn] at h; simp only [runProg]; split <;> simp [ih _ h]
-  | found e n k ih => simp only [progAgn] at h; simp [runProg, ih _ h]
-  | curSub n k ih => simp only [progAgn] at h; simp only [runProg]; split <;> simp [ih _ h]
-  | readLen kind k ih =>
-    simp only [progAgn] at h
-    simp only [runProg]
-    split
-    · rfl
-    · split <;> simp [ih _ h]
-  | ite c t e iht ihe =>
-    simp only [progAgn, Bool.and_eq_true] at h
-    simp only [runProg, evalCond_agn env s a b c h.1.1]
-    split <;> simp [iht _ h.1.2, ihe _ h.2]
-  | ok => rfl
-  | redispatch => rfl
-  | call t => rfl
-  | failChar w e => rfl
-  | failBasic m => rfl
-
-theorem St.mem_all (st : St) : st ∈ St.all := by cases st <;> decide
 
 /-- table obligation: every step function is agnostic to LF vs CR -/
 theorem table_nl_agnostic : (St.all.all fun st => progAgn 10 13 (Gen.prog st)) = true := by decide +kernel
